@@ -204,3 +204,40 @@ func Verif_C11_inbound_ends_and_passive() {
 		verifAssert("passive-peer-never-dialled", e.dial.attempts == 0)
 	}
 }
+
+// after an inbound session has ended the peer does not only redial: the redial can establish
+func Verif_C11_outbound_establishes_after_inbound_session() {
+	verifNote("active peer whose dial stays pending; an inbound connection is brought to OpenSent/OpenConfirm/Established and ended by FIN / RST / Cease (symbolic); from then on the remote accepts connections: after at most 2 timer expiries (configured durations) a dial is issued, and the handshake on that outbound connection reaches Established")
+	e, idle, retry := c11Env(false)
+	e.dial.outcomes = []dialOutcome{dialPendingThenFail}
+	e.p.start()
+	verifQuiesce()
+	state := verifChoose("state", 3)
+	ci := e.bring(in, state)
+	attempts := e.dial.attempts
+	nOut := e.nOut
+	e.dial.outcomes = []dialOutcome{dialOK}
+	switch verifChoose("end", 3) {
+	case 0:
+		ci.remoteClose(1)
+	case 1:
+		ci.remoteClose(2)
+	case 2:
+		ci.send(notificationMessageType, []byte{NOTIF_CODE_CEASE, 0})
+	}
+	verifQuiesce()
+	verifAssert("inbound-connection-closed", ci.closed)
+	estab := e.pl.nEstab
+	if e.nOut == nOut {
+		fires := c11WaitForDial(e, idle, retry, attempts)
+		verifAssert("redial-within-two-expiries", fires <= 2 && e.dial.attempts > attempts)
+	}
+	verifAssert("outbound-connection-made", e.nOut == nOut+1)
+	if e.nOut != nOut+1 {
+		return
+	}
+	co := e.bring(out, stEstablished)
+	verifAssert("outbound-session-established", e.pl.nEstab == estab+1 && !co.closed && e.p.fsmState[out] == establishedState)
+	verifCover("re-established-outbound")
+	e.p.stop()
+}
